@@ -41,3 +41,8 @@ pub open spec fn while_ok(r: core::Expr, c: Expr, b: Expr, ty: Ty) -> bool {
 pub open spec fn cores_of(items: Seq<Expr>, out: Seq<core::Expr>) -> bool {
     out.len() == items.len() && forall|i: int| 0 <= i < items.len() ==> #[trigger] out[i] == core_of(items[i])
 }
+// names::inherent_method_fn_name: the name of the Go function of an inherent method (a function of receiver type and method name)
+pub uninterp spec fn inherent_name(receiver: Ty, method: Seq<char>) -> Seq<char>;
+#[verifier::external_body] pub fn inherent_method_fn_name(receiver_ty: &Ty, method_name: &str) -> (r: String) ensures r@ == inherent_name(*receiver_ty, method_name@) { unimplemented!() }
+#[verifier::external_body] pub fn string_as_str2(s: &String) -> (r: &str) ensures r@ == s@ { unimplemented!() }
+
